@@ -30,8 +30,8 @@ static const Mode g_modes[] = {
   {"ioerr", gen_ioerr, exec_ioerr},
   {"corrupt", gen_corrupt, exec_corrupt},
   {"logfmt", gen_logfmt, exec_logfmt},
-#ifdef LSIM_ALL_MODES
   {"repair", gen_repair, exec_repair},
+#ifdef LSIM_ALL_MODES
   {"life", gen_life, exec_life},
 #endif
 };
@@ -163,6 +163,7 @@ static ChildResult run_forked(const Plan &p) {
     close(fds[0]);
     dup2(fds[1], 1); // CANDIDATE/REPRODUCED lines from emergency() go to the pipe
     g_in_replay = true;
+    g_known.clear();
     ChildResult c = run_here(p);
     string line = c.violated ? ("RESULT " + c.prop + " " + c.cls + " " + c.detail) : "RESULT ok";
     for (char &ch : line) if (ch == '\n') ch = ' ';
@@ -229,6 +230,7 @@ struct Agg {
   uint64_t runs = 0, nontrivial = 0, violations = 0;
   std::map<string, uint64_t> probes, counts;
   std::vector<string> samples;
+  std::set<string> known_reported;
   FILE *hashf = nullptr;
 };
 
@@ -274,7 +276,8 @@ static int cmd_run(int argc, char **argv) {
     else if (a == "--start") start = strtoull(val().c_str(), 0, 10); else if (a == "--stride") stride = strtoull(val().c_str(), 0, 10);
     else if (a == "--max-runs") max_runs = strtoull(val().c_str(), 0, 10); else if (a == "--budget") budget = atof(val().c_str());
     else if (a == "--tag") g_tag = val(); else if (a == "--rlimit") g_worker_rlimit = atol(val().c_str()); else if (a == "--hashes") out_prefix = val();
-    else if (a == "--replay-dir") g_replay_dir = val(); else if (a == "--max-candidates") max_cand = atoi(val().c_str()); else if (a == "--shrink-budget") shrink_budget = atoi(val().c_str());
+    else if (a == "--replay-dir") g_replay_dir = val();
+    else if (a == "--known") { string k = val(); size_t e = k.find('='); g_known.push_back({k.substr(0, e), e == string::npos ? "" : k.substr(e + 1)}); } else if (a == "--max-candidates") max_cand = atoi(val().c_str()); else if (a == "--shrink-budget") shrink_budget = atoi(val().c_str());
     else { fprintf(stderr, "unknown option %s\n", a.c_str()); return 2; }
   }
   const Mode *m = find_mode(mode);
@@ -303,6 +306,20 @@ static int cmd_run(int argc, char **argv) {
       agg.nontrivial++;
       if (agg.hashf) { uint64_t h = mix64(p.hash(), out.event_hash); fwrite(&h, 8, 1, agg.hashf); }
       if (agg.samples.size() < 2 || (agg.samples.size() < 3 && agg.runs > 20)) agg.samples.push_back(sample_of(p));
+    }
+    for (auto &kv : out.known) {
+      string pc = kv.prop + "." + kv.cls;
+      if (agg.known_reported.count(pc)) continue;
+      agg.known_reported.insert(pc);
+      auto saved = g_known; g_known.clear();
+      int used = 0;
+      Plan small = shrink_budget > 0 ? shrink(p, kv.prop, kv.cls, shrink_budget, &used) : p;
+      ChildResult fin = run_forked(small);
+      g_known = saved;
+      string path = write_replay(small, kv.prop, kv.cls);
+      string d; json_escape(d, fin.violated && fin.prop == kv.prop && fin.cls == kv.cls ? fin.detail : kv.detail);
+      printf("CANDIDATE {\"property\":\"%s\",\"class\":\"%s\",\"replay\":\"%s\",\"ops_before\":%zu,\"ops_after\":%zu,\"shrink_runs\":%d,\"known\":1,\"detail\":\"%s\"}\n", kv.prop.c_str(), kv.cls.c_str(), path.c_str(), p.ops.size(), small.ops.size(), used, d.c_str());
+      fflush(stdout);
     }
     if (!out.viol.empty()) {
       agg.violations++;
